@@ -3,6 +3,8 @@
   Property theorems only (helper lemmas are in NPModel.Refine).
 -/
 import NPModel.Refine.Samples
+import NPModel.Refine.GetItem
+import NPModel.Refine.Take
 namespace NP.C05
 open NP
 variable {α : Type}
@@ -16,10 +18,63 @@ theorem chunk_slice_refines (s : PStruct α) (st n : Nat) (h : st + n ≤ s.len)
 /-- Taking rows of a chunk by (optionally masked) positions gives, position by position, the row
     the index points to, and a missing row for a masked index — repeats, any order, any layout. -/
 theorem chunk_take_refines (s : PStruct α) (idx : List (Option Nat)) :
-    (s.take idx).rows = idx.map fun o => match o with
-      | none => none
-      | some j => (s.rows[j]?).join :=
+    (s.take idx).rows = idx.map (pickRow s.rows) :=
   PStruct.take_rows s idx
+
+/-- **`column[key]` is `rows[key]`** — the whole of `NestedExtensionArray.__getitem__`, for every
+    well-formed column in any physical layout (any number of chunks incl. empty ones, slices with
+    raw offsets, hidden child lists) and EVERY key: an integer (negative counts from the end,
+    out of range = IndexError), a slice with any start/stop/step incl. negative and zero step
+    (ValueError), a boolean mask (wrong length = IndexError), an integer array with repeats and
+    negatives.  Left: the implementation model on the physical storage, abstracted afterwards;
+    right: the same indexing on the plain list of rows. -/
+theorem getitem_refines (c : PCol α) (hw : c.WF = true) (k : Key) :
+    (NArr.getItem c k).map absGet = Spec.getItem c.rows k :=
+  getItem_refines c hw k
+
+/-- Column-level `take` by positions (chunked storage): row `i` of the result is the row the
+    `i`-th position points to. -/
+theorem column_take_refines (c : PCol α) (hw : c.WF = true) (idx : List (Option Nat)) :
+    (c.take idx).rows = idx.map (pickRow c.rows) :=
+  PCol.take_rows c hw idx
+
+/-- Boolean-mask selection on chunked storage (chunk-wise `filter`). -/
+theorem column_filter_refines (c : PCol α) (hw : c.WF = true) (m : List Bool) (hm : m.length = c.len) :
+    (c.filter m).rows = filterBy m c.rows :=
+  PCol.filter_rows c hw m hm
+
+/-- `ChunkedArray.slice` over any chunking reads as the slice of the rows. -/
+theorem chunked_slice_refines (chunks : List (PStruct α)) (st n : Nat) :
+    (chunkedSlice chunks st n).flatMap PStruct.rows = ((chunks.flatMap PStruct.rows).drop st).take n :=
+  chunkedSlice_rows chunks st n
+
+/-- Pickling (`__getstate__` = `combine_chunks`) preserves every row. -/
+theorem pickle_refines (c : PCol α) (hw : c.WF = true) : (NArr.pickle c).rows = c.rows := by
+  unfold NArr.pickle PCol.rows
+  simp only [List.flatMap_cons, List.flatMap_nil, List.append_nil]
+  exact PCol.combine_rows c hw
+
+/-- **`take` is list `take`** (negative positions count from the end; out of range and a
+    non-empty take from an empty column = IndexError), on validated storage in any layout; the
+    result passes the constructor's validation. -/
+theorem take_refines (c : PCol α) (hw : c.WF = true) (ha : c.aligned) (indices : List Int) (fill : Row α) :
+    (NArr.take c indices false fill).map PCol.rows = Spec.take c.rows indices false fill :=
+  take_refines_nofill c hw ha indices fill
+
+/-- **Concatenation is `++`**: the chunks of all inputs in order, validated. -/
+theorem concat_is_append (ty : List (String × String)) (cs : List (PCol α)) (hv : ∀ c ∈ cs, c.validate = .ok ())
+    (hne : cs.flatMap (·.chunks) ≠ []) :
+    (NArr.concat ty cs).map PCol.rows = .ok (Spec.concat (cs.map PCol.rows)) :=
+  concat_refines ty cs hv hne
+
+/-- validated storage is aligned, so the hypotheses of `take_refines` are met by everything the
+    constructor accepts -/
+theorem validated_is_aligned (c : PCol α) (hw : c.WF = true) (hne : ∀ s ∈ c.chunks, s.nullEmpty = true)
+    (hv : c.validate = .ok ()) : c.aligned :=
+  PCol.aligned_of_validate c hw hne hv
+
+/-- non-vacuity for the column-level theorems: the three-chunk sample column is well formed -/
+example : Samples.c1.WF = true ∧ Samples.c1.rows.length = 4 := by decide
 
 /-- non-vacuity: a sliced, non-zero-based chunk with a missing row and a null child list -/
 example : (Samples.s1.slice 1 2).rows = [none, some [("a", [3]), ("b", [6])]] ∧
